@@ -4,13 +4,13 @@ strictly decreases  pending here-tags + 2 * (token started), so the loop cannot 
 from vx.unit import Unit
 from vx.extract import C
 
-PROPS = ['C01']
+PROPS = ['C01', 'C19']
 HEADER = '#![feature(pattern)]\nuse vstd::prelude::*;\nverus! {\n'
 FOOTER = '\n} // verus!\nfn main() {}\n'
 
 
 def build(repo, findings):
-    u = Unit('U27b', 'end of input inside a here-document: each extra round of the tokenizer loop makes progress', repo, ['C01'], safety_props=['C01'])
+    u = Unit('U27b', 'end of input inside a here-document: each extra round of the tokenizer loop makes progress', repo, ['C01', 'C19'], safety_props=['C01'])
     src = u.source('brush-parser/src/tokenizer.rs')
     for v in (r'\n\s*MissingHereTagForDocumentBody,', r'\n\s*MissingHereTag\(String\),', r'\n\s*UnterminatedHereDocuments\(String, String\),'):
         src.require_text(v, 'projected variant of TokenizerError')
@@ -74,8 +74,8 @@ def build(repo, findings):
     a.sig(fn, ret='res', requires=[
         C('aux in-here-docs-means-a-tag-is-pending', 'old(self_).cross_state.here_state is InHereDocs ==> old(self_).cross_state.current_here_tags@.len() > 0'),
     ], ensures=[
-        C('C01 another-round-at-end-of-input-only-after-progress', 'res == Ok::<bool, TokenizerError>(true) ==> 0 <= measure(final(self_).cross_state, *final(state)) < measure(old(self_).cross_state, *old(state))'),
-        C('C01 otherwise-the-step-fails', '!(res == Ok::<bool, TokenizerError>(true)) ==> res is Err'),
+        C('C01,C19 another-round-at-end-of-input-only-after-progress', 'res == Ok::<bool, TokenizerError>(true) ==> 0 <= measure(final(self_).cross_state, *final(state)) < measure(old(self_).cross_state, *old(state))'),
+        C('C01,C19 otherwise-the-step-fails', '!(res == Ok::<bool, TokenizerError>(true)) ==> res is Err'),
     ])
     u.add(a)
     # ---- consume_nested_construct: the character after a terminating-char token may be missing (end of input): an error, not a panic
